@@ -6,6 +6,7 @@ re-evaluated here in Python on the fully written traces of the first schedules.
 Model side: coq/Raft (raftLog / unstable / storage contract / quorum arithmetic), extracted and
 diffed against the real raftLog, MemoryStorage and RocksStorage in `raftsim -mode log`.
 """
+import atexit
 import fcntl
 import glob
 import hashlib
@@ -19,6 +20,7 @@ import vlib
 from vlib import sh, log
 
 RAFTSIM = os.path.join(vlib.BIN, "raftsim")
+MODELRUN = None
 
 TITLES = {
     "C01": "at most one leader per term; learners neither lead nor vote",
@@ -376,7 +378,30 @@ def run(ctx, prop):
         log("MODEL BUILD FAILED:\n" + mout[-3000:])
         raise SystemExit(2)
 
-    work = ctx.run_dir
+    # everything this process writes goes to a directory of its own (two checks of one property may run at the same time),
+    # and it runs private copies of the two binaries that concurrent checks rebuild in place
+    global RAFTSIM, MODELRUN
+    work = os.path.join(ctx.run_dir, "p%d" % os.getpid())
+    shutil.rmtree(work, ignore_errors=True)
+    os.makedirs(work)
+    if not os.environ.get("VERIF_KEEP_RUN"):
+        atexit.register(shutil.rmtree, work, True)
+    for attempt in range(5):
+        try:
+            shutil.copy2(os.path.join(vlib.BIN, "raftsim"), os.path.join(work, "raftsim"))
+            with vlib.CoqLock():
+                shutil.copy2(vlib.modelrun_path("Raft"), os.path.join(work, "modelrun"))
+            rc_p, out_p, _ = sh("%s -consts" % os.path.join(work, "raftsim"), timeout=60)
+            rc_m, out_m, _ = sh("%s < /dev/null" % os.path.join(work, "modelrun"), timeout=60)
+            if rc_p == 0 and rc_m == 0:
+                break
+        except OSError:
+            pass
+        time.sleep(1 + attempt)
+    else:
+        log("could not take private copies of raftsim / modelrun")
+        raise SystemExit(2)
+    RAFTSIM, MODELRUN = os.path.join(work, "raftsim"), os.path.join(work, "modelrun")
     fails, mism, total_records, total_traces = [], [], 0, 0
     hist, profiles, configs, stats_all, samples, distinct = {}, {}, {}, {}, [], set()
     notes = ctx.notes
@@ -421,7 +446,7 @@ def run(ctx, prop):
     if rc != 0:
         log("HARNESS RUN FAILED (log mode):\n" + out[-3000:])
         raise SystemExit(2)
-    rc2, out2, _ = sh("%s < cases.tsv > model.out" % vlib.modelrun_path("Raft"), cwd=d, timeout=left(120))
+    rc2, out2, _ = sh("%s < cases.tsv > model.out" % MODELRUN, cwd=d, timeout=left(120))
     if rc2 != 0:
         log("MODEL RUN FAILED:\n" + out2[-3000:])
         raise SystemExit(2)
@@ -444,7 +469,7 @@ def run(ctx, prop):
         dd = os.path.join(work, cname)
         shutil.rmtree(dd, ignore_errors=True)
         os.makedirs(dd)
-        rc2, out2, _ = sh("%s < %s > model.out" % (vlib.modelrun_path("Raft"), os.path.join(dcore, "core-cases.tsv")), cwd=dd, timeout=left(120))
+        rc2, out2, _ = sh("%s < %s > model.out" % (MODELRUN, os.path.join(dcore, "core-cases.tsv")), cwd=dd, timeout=left(120))
         if rc2 != 0:
             log("MODEL RUN FAILED (core):\n" + out2[-3000:])
             raise SystemExit(2)
